@@ -545,6 +545,18 @@ func checkC10(c *Check, p *Program) {
 				case "sync.WaitGroup.Wait":
 					nBlock++
 					c.Decide(fn == onceFn, "C10.K5", fnName+" Wait", pos, "Close's join; serve leaves by its select exits", "WaitGroup.Wait outside Close")
+					// the join must not hold a lock the joined goroutine may still need
+					held := ""
+					for sf := range cg.reachableSync(t.serve) {
+						instrsOf(sf, func(y ssa.Instruction) {
+							if ci, ok := y.(ssa.CallInstruction); ok {
+								if op, ok := mutexOp(ci); ok && op.kind == "lock" && lc.Held(x, op.key) {
+									held = op.key + " (taken by " + FuncName(sf) + ")"
+								}
+							}
+						})
+					}
+					c.Decide(held == "", "C10.K5", fnName+" Wait holds no lock the worker takes", pos, "lockset at the join: "+lc.HeldSet(x), "Close waits for the worker while holding "+held+": when the worker is about to take that lock (reconnect) both wait for ever")
 				case "sync.Mutex.Lock":
 					nBlock++
 					c.OK("C10.K5", fnName+" Lock "+lockKey(callRecv(x)), pos, "holders leave through their select exits (K5) - mutual exclusion only")
